@@ -44,8 +44,8 @@ def handle (line : String) : String :=
     -- one Execute call on a fresh interpreter
     match maxOps.toNat?, bytesOfHex prog with
     | some m, some bs =>
-      let s0 := { newInterpreter with maxOps := m, checkStart := checkStart == "1" }
-      let (s1, r) := execute (fuelFor m bs.length) s0 (toU8 bs) none
+      let s0 := { newInterpreter with checkStart := checkStart == "1" }
+      let (s1, r) := execute (fuelFor m bs.length) m s0 (toU8 bs) none
       Driver.Canon.render s1 r
     | _, _ => "bad-op"
   | ["eexecdec", r, h] =>
